@@ -5,6 +5,8 @@ type nat =
 | O
 | S of nat
 
+val option_map : ('a1 -> 'a2) -> 'a1 option -> 'a2 option
+
 val fst : ('a1 * 'a2) -> 'a1
 
 val snd : ('a1 * 'a2) -> 'a2
@@ -614,6 +616,18 @@ val str_of_fl : fl -> char list
 val str_of_val : pyval -> char list
 
 val truncate : nat -> char list -> char list
+
+val parse_nat_acc : char list -> z -> z option
+
+val parse_nat : char list -> z option
+
+val split_dot : char list -> char list * char list option
+
+val parse_signed : (char list -> z option) -> char list -> z option
+
+val parse_int : char list -> z option
+
+val parse_half : char list -> z option
 
 val np_cast : bool -> dtype -> pyval -> pyval outcome
 
